@@ -44,12 +44,23 @@ def run_pool(args):
         def src():
             for i in (itertools.count() if n is None else range(n)):
                 pulled["n"] += 1; yield i
+        mapped = {"n": 0}
+        def f(x, _m=mapped):          # (bound now: worker threads of the previous case may still be draining their queue)
+            _m["n"] += 1; return x
+        # the input as a generator (pulls are counted at the source) or as a sized container (list / tuple / range: what is read ahead
+        # is what the mapped function has been applied to)
+        kind = a.get("input", "generator")
+        inp = src() if kind == "generator" else {"list": list, "tuple": tuple, "range": lambda r: r}[kind](range(n))
         mx, got = 0, 0
         with LazyPool(T) as pool:
-            for y in pool.imap_unordered(lambda x: x, src()):
-                got += 1; mx = max(mx, pulled["n"] - got)
+            for y in pool.imap_unordered(f, inp):
+                got += 1
+                if kind != "generator":
+                    import time as _t
+                    _t.sleep(0.002)          # let the workers run as far ahead as they are allowed to
+                mx = max(mx, (pulled["n"] if kind == "generator" else mapped["n"]) - got)
                 if take is not None and got >= take: break
-        out.append(dict(a, max_ahead=mx, pulled=pulled["n"], got=got))
+        out.append(dict(a, max_ahead=mx, pulled=pulled["n"] if kind == "generator" else mapped["n"], got=got))
     return out
 
 
@@ -92,7 +103,7 @@ def run_e2e(args):
                             t.join(timeout=10)
                     opens["n"] = 0
                     try:
-                        real_iface, rep_ = ("tf", False) if iface == "tf_norepeat" else (("concurrent", True) if iface == "concurrent_none" else (iface, True))
+                        real_iface, rep_ = ("tf", False) if iface == "tf_norepeat" else (("concurrent", True) if iface == "concurrent_none" else (("concurrent", False) if iface == "concurrent_norepeat" else (iface, True)))
                         got, _ = I.run_iface(ds, real_iface, "train", shuffle=shuffle, T=T, repeat=rep_, take=a["k"])
                         # process_and_list calls iterate_shard: count each shard once
                         n_open = opens["n"] // (2 if real_iface in ("concurrent", "tf") else 1)
@@ -111,7 +122,7 @@ def bound_opens(iface, shuffle, T, k, eps):
     need = math.ceil(k / eps)
     if iface == "sync":
         return math.ceil((k + shuffle + 1) / eps) + 1
-    if iface in ("concurrent", "concurrent_none"):
+    if iface in ("concurrent", "concurrent_none", "concurrent_norepeat"):
         import os
         T = T or (os.cpu_count() or 1)
         return need + (3 * T + 3 if shuffle else T) + 1
@@ -300,6 +311,7 @@ def run(ctx):
                 corr_bad.append({"stage": kind, "b": b, "n": n, "take": take, "measured": m, "model": rep})
     # ---- lazy pool: independent of the input length, bounded by a function of T
     pargs = [{"T": T, "n": n, "take": take} for T in [1, 2, 4] for (n, take) in [(60, None), (600, None), (None, 25), (None, 3)]]
+    pargs += [{"T": T, "n": 500, "take": 3, "input": kind} for T in [1, 3] for kind in ("list", "tuple", "range")]
     pres = child.call("harness.checks.c14", "run_pool", pargs, timeout=300)
     byT = collections.defaultdict(list)
     for r in pres:
@@ -307,7 +319,7 @@ def run(ctx):
         if r["max_ahead"] > 3 * r["T"] + 3:
             ctx.report({"kind": "readahead", "stage": "lazy_pool"}, f"LazyPool({r['T']}) ran {r['max_ahead']} inputs ahead of its consumer (n={r['n']})", {"run": r})
     for T, rs in byT.items():
-        full = [r["max_ahead"] for r in rs if r["take"] is None]
+        full = [r["max_ahead"] for r in rs if r["take"] is None and r.get("input", "generator") == "generator"]
         if len(set(full)) > 1:
             ctx.report({"kind": "readahead-depends-on-length", "stage": "lazy_pool"}, f"LazyPool({T}) read-ahead depends on the input length: {full}", {"runs": rs})
     # ---- lazy pool under adversarial schedules (the scheduler always prefers the workers / the consumer)
@@ -331,7 +343,9 @@ def run(ctx):
                 ("tf", 0, 2), ("tf", 3, 2), ("tf_norepeat", 0, None),
                 # file_parallelism=None given to the shuffled concurrent interface: refused, or some finite default (the unshuffled branch
                 # is left out: `islice(paths, None)` is documented Python for "everything", and None is outside the declared `int`)
-                ("concurrent_none", 3, None)]
+                ("concurrent_none", 3, None),
+                # a *finite* shuffled pass (repeat=False) through the concurrent interface, stopped after k examples
+                ("concurrent_norepeat", 3, 2)]
         eargs.append({"root": str(ctx.scratch / f"c14_{i}"), "fmt": fmt, "eps": eps, "k": 7, "sizes": [12, 40] if not ctx.thorough else [12, 40, 160], "configs": cfgs})
     eres = child.call("harness.checks.c14", "run_e2e", eargs, timeout=900)
     nrun = 0
